@@ -185,7 +185,7 @@ class C14(Check):
         "the context name and excluded names; optionally a second function with the same python name and other annotations, sharing the validator instance, is served first. Oracle: executed iff (a twin function binds) and (reference says the explicitly bound arguments "
         "conform): a 60-line evaluator of exactly the generated schema vocabulary / pydantic.TypeAdapter(annotation) per parameter; refused "
         "=> -32602, JSON text, empty execution log; accepted => the body saw the raw values (jsonschema, coerce off) or the TypeAdapter's "
-        "converted values (coerce on), defaults filled; excluded parameters keep their defaults. non-trivial = at least one parameter carries "
+        "converted values (coerce on), defaults filled; excluded parameters keep their defaults; the same request sent a second time is answered identically. non-trivial = at least one parameter carries "
         "a constraint and the arguments bind (so the constraint is exercised); distinct = distinct spec."
     )
     assumptions = [
@@ -469,6 +469,16 @@ class C14(Check):
                 discs.append(Disc(f"C14/non-conforming-call-executed/{verdict}/{spec['validator']}", f"{jg.short(doc)} log {jg.short(log)} | {where}"))
             elif code != -32602:
                 discs.append(Disc(f"C14/refused-with-wrong-code/{code}", f"{jg.short(doc)} | {where}"))
+        # the same request once more through the same dispatcher / validator: validation keeps no state a request could change
+        if not discs:
+            del LOG[:]
+            try:
+                r2 = hm.run_dispatch(spec['dispatcher'], d, text, sentinel)
+                same = json.loads(r2[0]) == doc and jg.jeq([e['args'] for e in LOG], [e['args'] for e in log])
+            except Exception as e:
+                r2, same = repr(e), False
+            if not same:
+                discs.append(Disc("C14/second-identical-request-answered-differently", f"first {jg.short(doc)} log {jg.short(log)}; second {r2!r} log {jg.short(list(LOG))} | {where}"))
         classes = [f"validator/{spec['validator']}", f"flavour/{spec['flavour']}", 'ctx/yes' if spec['ctx'] else 'ctx/no',
                    'excluded/yes' if spec['excluded'] else 'excluded/no', f"dispatcher/{spec['dispatcher']}",
                    *(['excluded/injected-without-default'] if spec['excluded'] and spec.get('excluded_style') == 'injected' else []),
